@@ -927,7 +927,7 @@ def install(I):
             return I.ret(st, z3.BoolVal(False))
         return I.ret(st, Opaque('tracing::Span(disabled)', ident='span-none'))
 
-    for pat in (r'^LevelFilter::current$', r'^DefaultCallsite::(interest|new|register|metadata)$', r'^<DefaultCallsite as Callsite>::metadata$',
+    for pat in (r'^LevelFilter::current$', r'^Interest::(never|always|sometimes)$', r'^tracing::Span::', r'^Span::', r'^tracing::span::', r'^<tracing::Span as ', r'^<Span as ', r'^tracing::Dispatch', r'^tracing::dispatcher::', r'^DefaultCallsite::(interest|new|register|metadata)$', r'^<DefaultCallsite as Callsite>::metadata$',
                 r'^tracing::Metadata::<.*>::(fields|new)$', r'^tracing::Metadata::(fields|new)$', r'^FieldSet::(new|value_set|value_set_all|iter|len)$',
                 r'^Event::(<.*>::)?dispatch$', r'^Event::dispatch$', r'^tracing::Span::(new|record|enter|entered|in_scope|follows_from|is_disabled)$',
                 r'^Span::(new|record|enter|entered|in_scope)$', r'^Identifier$', r'^tracing::callsite::Identifier$', r'^tracing::field::',
